@@ -801,4 +801,38 @@ def viaTables (rnd : Rat → Rat) (fe fr : Bool) (info : PyDict) (txs : List Tx)
     | none => none
     | some recs => some (readLog fr (Rec.version 4 :: recs))
 
+/-! ### phase 6: logs that record the SAME id several times — what may be reordered
+
+`TransactionResult` keeps one dictionary entry per id (`rows[id].update(…)`, `int_rows[tuple(ids)] = …`), so the Result depends on
+the relative order of the records of ONE id only.  `recKey` names the dictionary entry a record goes to. -/
+
+inductive RecKey where
+  | version | experiment | comp (t : Tbl) (id : Int) | inter (ids : List Int)
+  deriving DecidableEq, Repr, Inhabited
+
+/-- `tuple(ids)` with `[e,l]` completed to `[e,l,0]` (the key of `int_rows`) -/
+def triKey (ids : List Int) : List Int := if ids.length = 2 then ids ++ [0] else ids
+
+def recKey : Rec → RecKey
+  | .version _ => .version
+  | .experiment _ => .experiment
+  | .comp t id _ => .comp t id
+  | .inter ids _ _ => .inter (triKey ids)
+
+/-- `b` holds the records of `a` rearranged so that the records of every single key keep their relative order -/
+def SameKeyOrder (a b : List Rec) : Prop :=
+  ∀ k : RecKey, a.filter (fun r => decide (recKey r = k)) = b.filter (fun r => decide (recKey r = k))
+
+/-- all records of key `k` moved to the front (stable) -/
+def pullKey (k : RecKey) (recs : List Rec) : List Rec :=
+  recs.filter (fun r => decide (recKey r = k)) ++ recs.filter (fun r => !decide (recKey r = k))
+
+/-- a rearrangement that groups the records by key: the keys `ks` are pulled to the front one after the other -/
+def regroupBy (ks : List RecKey) (recs : List Rec) : List Rec := ks.foldl (fun acc k => pullKey k acc) recs
+
+/-- the log of a run whose records (after the version line) were grouped by key, every key of the log pulled in log order -/
+def regroupLog : List Rec → List Rec
+  | .version n :: recs => .version n :: regroupBy (recs.map recKey) recs
+  | recs => recs
+
 end Coba.C07
